@@ -9,7 +9,7 @@ DT_INT = DT_SIGNED + DT_UNSIGNED
 DT_ALL = DT_BOOL + DT_INT + DT_FLOAT
 
 STRATA = ["norows", "onerow", "onlyempty", "emptyfirst", "emptylast", "emptymid",
-          "consecutive", "trailingrun", "noempty", "onelong", "free"]
+          "consecutive", "trailingrun", "noempty", "onelong", "free", "big"]
 
 
 def sizes(tier):
@@ -48,6 +48,10 @@ def length_vector(rng, tier="quick", stratum=None, maxrows=None, maxlen=None, mi
     elif stratum == "onelong":
         lens = [rng.choice([0, 1, 2]) for _ in range(rng.randint(2, maxrows))]
         lens[rng.randrange(len(lens))] = maxlen * (2 if tier == "quick" else 6)
+    elif stratum == "big":
+        # more than 20 rows and more than 100 cells: the other branches of repr/str, several 64-cell blocks, long prefix sums
+        lens = [rng.choice([0, 0, 1, 3, 5, 8, 9]) for _ in range(rng.randint(22, 40))]
+        lens[rng.randrange(len(lens))] = rng.choice([70, 101, 130])
     else:
         p0 = rng.choice([0.1, 0.3, 0.6])
         lens = [0 if rng.random() < p0 else pos() for _ in range(rng.randint(minrows, maxrows))]
